@@ -31,7 +31,8 @@ func runC10(c *Ctx) {
 		}
 	}
 	c.OnlyIn("call PreProcess", prod, 2, "isaac.(*DefaultProposalProcessor).getPreProcessor",
-		"launch.OperationPreProcess") // pool-admission pre-check with a fresh processor per operation; not block production
+		"launch.OperationPreProcess", // pool-admission pre-check with a fresh processor per operation; not block production
+		"launch.SendOperationFilterFunc") // runs that pool-admission pre-check (the function OperationPreProcess returned); seen only with resolved dynamic calls
 	if fn := c.Need("isaac.(*DefaultProposalProcessor).doPreProcessOperation"); fn != nil {
 		c.OnlyIn("call getPreProcessor", c.WhoCalls("(*isaac.DefaultProposalProcessor).getPreProcessor"), 1, "isaac.(*DefaultProposalProcessor).doPreProcessOperation")
 		calls := c.CallsD(fn, "call(p.getPreProcessor(p.args.NewOperationProcessorFunc, op)#0)(ctx)")
